@@ -144,6 +144,10 @@ func setupSrv(c *casket.Controller) error {
 
 var failRestartGen int32 = -1 // generation whose restart callback fails once
 
+// slowShutdownMs > 0: shutdown callbacks take that long (signal children with
+// concurrent signals: the later signals arrive while the callbacks run)
+var slowShutdownMs int32
+
 func setupCb(c *casket.Controller) error {
 	ctx := c.Context().(*vctx)
 	gen := ctx.gen
@@ -159,6 +163,9 @@ func setupCb(c *casket.Controller) error {
 	mk := func(kind string) func() error {
 		return func() error {
 			emit(gen, kind, "")
+			if ms := atomic.LoadInt32(&slowShutdownMs); ms > 0 && kind == "shutdown" {
+				time.Sleep(time.Duration(ms) * time.Millisecond)
+			}
 			if fail["fail"+kind] {
 				return fmt.Errorf("scripted failure of %s callback of generation %d", kind, gen)
 			}
@@ -998,13 +1005,23 @@ func procChild(args []string) int {
 		emit(0, "op:overlap-done", "")
 	}
 	emit(0, "op:signals", "")
+	if in.Scenario.Parallel {
+		atomic.StoreInt32(&slowShutdownMs, 150)
+	}
 	// deliver the ending signals
 	sigs := map[string]syscall.Signal{"TERM": syscall.SIGTERM, "INT": syscall.SIGINT, "QUIT": syscall.SIGQUIT}
 	if in.Scenario.Parallel {
 		var wg sync.WaitGroup
-		for _, s := range in.Scenario.Signals {
+		for i, s := range in.Scenario.Signals {
 			wg.Add(1)
-			go func(s string) { defer wg.Done(); syscall.Kill(os.Getpid(), sigs[s]) }(s)
+			go func(i int, s string) {
+				defer wg.Done()
+				if i > 0 && len(in.Scenario.Signals) >= 3 {
+					// while the callbacks started by the first signal are running
+					time.Sleep(time.Duration(20*i) * time.Millisecond)
+				}
+				syscall.Kill(os.Getpid(), sigs[s])
+			}(i, s)
 		}
 		wg.Wait()
 	} else {
